@@ -185,8 +185,69 @@ func c09(r *vc.Run) int {
 		}
 	}
 
+	// Sibling batches: the pipeline normalises all references of one page against the SAME parent object,
+	// one after the other. "A pure function of the URL text and its parent URL" means the result for a
+	// reference does not depend on which siblings were normalised before it, and the parent is left as it was.
+	batches, batchRefs := 0, 0
+	nb := r.N(3000, 60000)
+	for b := 0; b < nb; b++ {
+		base := genWFAbsolute(rng)
+		base.Path = strings.TrimSuffix(base.Path, "/") + "/" + pick(rng, genSegs) + "/" + pick(rng, genSegs)
+		parentText := base.String()
+		parent := &models.URL{Raw: parentText}
+		if preprocessor.NormalizeURL(parent, nil) != nil {
+			continue
+		}
+		parentBefore := parent.String()
+		batches++
+		var done []string
+		for k := 0; k < 2+rng.Intn(5); k++ {
+			var ref string
+			switch rng.Intn(7) {
+			case 0:
+				ref = genPath(rng, 3, true, true)
+			case 1:
+				ref = "//" + pick(rng, genHosts) + genPath(rng, 2, false, true)
+			case 2:
+				ref = genPath(rng, 3, true, false)
+			case 3:
+				ref = "?k=" + pick(rng, genVals)
+			case 4:
+				ref = "./" + genPath(rng, 2, false, false)
+			case 5:
+				ref = "../" + pick(rng, genSegs)
+			default:
+				ref = genWFAbsolute(rng).String()
+			}
+			if ref == "" {
+				ref = pick(rng, genSegs)
+			}
+			batchRefs++
+			want, wok := normOnce(ref, parentText) // fresh parent object
+			u := &models.URL{Raw: ref}
+			err := preprocessor.NormalizeURL(u, parent)
+			got, gok := "", err == nil
+			if gok {
+				got = u.String()
+			}
+			if gok != wok || got != want {
+				r.Violation("depends-on-earlier-siblings", fmt.Sprintf("NormalizeURL(%q, parent %q) gives %q (accepted=%v) with a fresh parent object but %q (accepted=%v) after the siblings %q were normalised against the same parent object", ref, parentText, want, wok, got, gok, done),
+					map[string]any{"ref": ref, "parent": parentText, "fresh": want, "shared": got, "siblings_before": done})
+				break
+			}
+			if now := parent.String(); now != parentBefore {
+				r.Violation("parent-changed-by-normalising-a-child", fmt.Sprintf("normalising %q changed its parent from %q to %q", ref, parentBefore, now),
+					map[string]any{"ref": ref, "parent_before": parentBefore, "parent_after": now})
+				break
+			}
+			done = append(done, ref)
+		}
+	}
+
 	cov := map[string]any{
-		"evaluations":                  evals,
+		"sibling_batches":              batches,
+		"sibling_references":           batchRefs,
+		"evaluations":                  evals + batchRefs,
 		"distinct_nontrivial":          len(distinct),
 		"rule":                         fmt.Sprintf("seeded grammar-generated and mutated URL texts x parents, each normalised %d times in fresh objects; non-trivial = distinct (text,parent) pairs that were accepted (so shape, idempotence and determinism were all exercised)", repeats),
 		"samples":                      samples.List(),
